@@ -281,3 +281,131 @@ impl Property for C06Pipe {
          non-trivial: work was outstanding when the end was requested (an item waits for a gate that opens only afterwards) or the runtime is multi-threaded".into()
     }
 }
+
+// ---------------------------------------------------------------------------------------------------------------------
+// C20, the "length queries, close" clause: while a send_with_async stays suspended, pending_items_count() / flush() / gracefully_end_all_streams()
+// on the same channel still complete. Paused-clock current-thread runtime: the suspended send is a future polled once and then kept; the call under
+// test runs under a 30 s (virtual) timeout -- under the paused clock nothing but the library's own 1 ms retry timers can run, so "did not return
+// within 30 virtual seconds" is decided, not a matter of machine load.
+
+#[derive(Clone, Copy, Debug, PartialEq, Eq, Serialize, Deserialize)]
+pub enum CloseOp { Len, Flush, EndAll }
+
+#[derive(Clone, Debug, Serialize, Deserialize)]
+pub struct SuspCloseCase {
+    pub kind:   ChanKind,
+    pub op:     CloseOp,
+    /// events sent (and consumed by the stream's task) before the suspended send starts
+    pub before: u8,
+    /// suspended sends in flight
+    pub suspended: u8,
+}
+
+pub struct SuspCloseOutcome { pub returned: bool, pub answer: u32, pub processed: usize, pub sent: usize, pub first_poll_pending: bool }
+
+macro_rules! susp_body {
+    ($case:ident, $chan:ident, $create:expr) => {{
+        let world = World::new(vec![], 1);
+        let (stream, _id) = $create;
+        let task = tokio::spawn(run_pipeline(stream, Shape::WhileLet, Arc::clone(&world), 0));
+        let mut sent = 0usize;
+        for v in 1..=$case.before as u64 { let mut tries = 0; while !$chan.send(v).is_ok() { tries += 1; if tries > 1000 { break; } tokio::task::yield_now().await; } sent += 1; }
+        for _ in 0..8 { tokio::task::yield_now().await; }
+        // the suspended sends: polled once, then kept
+        let ch: &'static _ = unsafe { &*Arc::as_ptr(&$chan) };
+        let mut futs = vec![];
+        let mut first_poll_pending = true;
+        for _ in 0..$case.suspended.max(1) {
+            let mut fut = Box::pin(ch.send_with_async(|slot: &'static mut u64| async move { std::future::pending::<()>().await; *slot = 99; slot }));
+            if futures::poll!(fut.as_mut()).is_ready() { first_poll_pending = false; }
+            futs.push(fut);
+        }
+        let call = async {
+            match $case.op {
+                CloseOp::Len => $chan.pending_items_count(),
+                CloseOp::Flush => $chan.flush(Duration::ZERO).await,
+                CloseOp::EndAll => $chan.gracefully_end_all_streams(Duration::ZERO).await,
+            }
+        };
+        let res = tokio::time::timeout(Duration::from_secs(30), call).await;
+        let processed = world.finished_of(0).len();
+        task.abort();
+        // (a send dropped while suspended may leave ring state behind: no teardown)
+        std::mem::forget(futs);
+        std::mem::forget($chan);
+        SuspCloseOutcome { returned: res.is_ok(), answer: res.unwrap_or(u32::MAX), processed, sent, first_poll_pending }
+    }}
+}
+
+async fn susp_main_uni<C, D>(case: SuspCloseCase) -> SuspCloseOutcome
+where C: FullDuplexUniChannel<ItemType = u64, DerivedItemType = D> + Send + Sync + 'static, D: Ev {
+    let chan = C::new("rmv");
+    susp_body!(case, chan, chan.create_stream())
+}
+async fn susp_main_multi<C, D>(case: SuspCloseCase) -> SuspCloseOutcome
+where C: FullDuplexMultiChannel<ItemType = u64, DerivedItemType = D> + Send + Sync + 'static, D: Ev {
+    let chan = C::new("rmv");
+    susp_body!(case, chan, chan.create_stream_for_new_events())
+}
+
+type BoxSusp = Pin<Box<dyn Future<Output = SuspCloseOutcome>>>;
+fn susp_dispatch(case: SuspCloseCase) -> BoxSusp {
+    match case.kind {
+        ChanKind::UniMoveAtomic     => Box::pin(susp_main_uni::<ChannelUniMoveAtomic<u64, PIPE_B, PIPE_M>, _>(case)),
+        ChanKind::UniMoveFullSync   => Box::pin(susp_main_uni::<ChannelUniMoveFullSync<u64, PIPE_B, PIPE_M>, _>(case)),
+        ChanKind::UniMoveCrossbeam  => Box::pin(susp_main_uni::<ChannelUniMoveCrossbeam<u64, PIPE_B, PIPE_M>, _>(case)),
+        ChanKind::UniZcAtomic       => Box::pin(susp_main_uni::<ChannelUniZeroCopyAtomic<u64, PIPE_B, PIPE_M>, _>(case)),
+        ChanKind::UniZcFullSync     => Box::pin(susp_main_uni::<ChannelUniZeroCopyFullSync<u64, PIPE_B, PIPE_M>, _>(case)),
+        ChanKind::MultiArcAtomic    => Box::pin(susp_main_multi::<ChannelMultiArcAtomic<u64, PIPE_B, PIPE_M>, _>(case)),
+        ChanKind::MultiArcFullSync  => Box::pin(susp_main_multi::<ChannelMultiArcFullSync<u64, PIPE_B, PIPE_M>, _>(case)),
+        ChanKind::MultiArcCrossbeam => Box::pin(susp_main_multi::<ChannelMultiArcCrossbeam<u64, PIPE_B, PIPE_M>, _>(case)),
+        ChanKind::MultiOgreAtomic   => Box::pin(susp_main_multi::<ChannelMultiOgreArcAtomic<u64, PIPE_B, PIPE_M>, _>(case)),
+        ChanKind::MultiOgreFullSync => Box::pin(susp_main_multi::<ChannelMultiOgreArcFullSync<u64, PIPE_B, PIPE_M>, _>(case)),
+        ChanKind::MultiMmap         => panic!("the mmap log's send_with_async is todo!() upstream"),
+    }
+}
+
+pub struct C20Close;
+// (not the movable full-sync Uni kind: its suspended send keeps the ring's spin lock, the consumer's poll spins on it -- known finding R9, keyed in the controlled part)
+static ASYNC_KINDS: [ChanKind; 9] = [ChanKind::UniMoveAtomic, ChanKind::UniMoveCrossbeam, ChanKind::UniZcAtomic, ChanKind::UniZcFullSync,
+                                      ChanKind::MultiArcAtomic, ChanKind::MultiArcFullSync, ChanKind::MultiArcCrossbeam, ChanKind::MultiOgreAtomic, ChanKind::MultiOgreFullSync];
+impl Property for C20Close {
+    type Case = SuspCloseCase;
+    fn part(&self) -> &'static str { "suspended-async-close" }
+    fn strategy(&self, _tier: Tier) -> BoxedStrategy<SuspCloseCase> {
+        (any::<u16>(), prop_oneof![1 => Just(CloseOp::Len), 2 => Just(CloseOp::Flush), 3 => Just(CloseOp::EndAll)], 0u8..4, 1u8..=2)
+            .prop_map(|(k, op, before, suspended)| {
+                let kind = pick(&ASYNC_KINDS, k);
+                // the movable full-sync Uni kind keeps its ring's spin lock across the await (known finding R9): a second send_with_async would spin inside our own poll
+                let suspended = if kind == ChanKind::UniMoveFullSync || kind == ChanKind::UniMoveAtomic { 1 } else { suspended };
+                SuspCloseCase { kind, op, before, suspended }
+            }).boxed()
+    }
+    fn cases(&self, tier: Tier) -> u32 { match tier { Tier::Quick => 1_500, Tier::Thorough => 12_000 } }
+    fn run(&self, case: &SuspCloseCase) -> RunReport {
+        let c2 = case.clone();
+        let end = run_case(Rt::CurrentPaused, move || susp_dispatch(c2));
+        let classes = vec![format!("kind:{}", case.kind.short()), format!("op:{:?}", case.op), format!("suspended-sends:{}", case.suspended), format!("events-before:{}", case.before)];
+        let fingerprint = { use std::hash::{Hash, Hasher}; let mut h = std::collections::hash_map::DefaultHasher::new(); format!("{case:?}").hash(&mut h); h.finish() };
+        let k = format!("{}/while-suspended/{:?}", case.kind.short(), case.op);
+        let (verdict, summary) = match end {
+            CaseEnd::Done(o) => {
+                let summary = format!("{} event(s) sent and {} processed beforehand; {} send_with_async suspended (first poll pending: {}); {:?} returned: {} (answer {})", o.sent, o.processed, case.suspended, o.first_poll_pending, case.op, o.returned, o.answer);
+                let v = if !o.first_poll_pending { None }       // (the setter did not suspend: nothing to decide)
+                        else if !o.returned { Some((format!("{k}/never-returns"), format!("with a send_with_async suspended, {:?} did not return within 30 virtual seconds (paused clock: only the library's own retry timers were running)", case.op))) }
+                        else if o.processed != o.sent { Some((format!("{k}/events-accepted-meanwhile-undelivered"), format!("{} events were accepted before the call but only {} had been processed when {:?} returned", o.sent, o.processed, case.op))) }
+                        else { None };
+                (match v { None => Verdict::Pass, Some((signature, detail)) => Verdict::Violation { signature, detail: format!("{detail}; {summary}") } }, summary)
+            },
+            // (the known finding R9 kinds may spin inside a poll: the paused-clock runtime then makes no progress at all)
+            CaseEnd::Hang { decided } => (Verdict::Inconclusive(if decided { "no-progress(paused-clock)".into() } else { "watchdog".into() }), "did not finish".into()),
+            CaseEnd::Panicked(p) => (Verdict::Violation { signature: format!("{k}/panic"), detail: format!("a task panicked: {p:?}") }, format!("panic {p:?}")),
+        };
+        RunReport { verdict, nontrivial: true, classes, fingerprint, trace: None, summary }
+    }
+    fn rule(&self) -> String {
+        "generated: 9 of the 10 channel kinds implementing send_with_async (not the movable full-sync Uni kind, whose suspended send keeps the ring's spin lock so that the consumer's poll spins: known finding R9, decided in the controlled part; BUFFER_SIZE 8, MAX_STREAMS 4) x 0..3 events sent and consumed beforehand x 1..2 send_with_async calls whose setter never resumes (polled once, then kept; 1 on the movable Uni kinds -- known finding R9) x the operation issued meanwhile {pending_items_count | flush(Duration::ZERO) | gracefully_end_all_streams(Duration::ZERO)} on a paused-clock current-thread runtime with one stream consumed by a while-let task; \
+         oracle: the operation returns within 30 virtual seconds (decided: under the paused clock only the library's own retry timers run) and everything accepted before it had been processed; \
+         non-trivial: every case".into()
+    }
+}
